@@ -1,4 +1,5 @@
-package main
+// Package vhlib is the shared part of the Go side of the verification machinery.
+package vhlib
 
 import (
 	"bufio"
@@ -18,9 +19,9 @@ import (
 
 // Ctx carries the parameters of one harness run.
 type Ctx struct {
-	Prop, Tier, Nadrv, Replay, Verif string
-	Seed                              uint64
-	rng                               *RNG
+	Prop, Tier, Nadrv, Replay, Verif, Repo string
+	Seed                                   uint64
+	Rng                                    *RNG
 }
 
 func (c *Ctx) Thorough() bool { return c.Tier == "thorough" }
@@ -51,28 +52,28 @@ type Failure struct {
 
 // Result is what ./check consumes.
 type Result struct {
-	Property       string         `json:"property"`
-	Evaluations    int            `json:"evaluations"`
-	Distinct       int            `json:"distinct_nontrivial"`
-	Rule           string         `json:"rule"`
-	Samples        []any          `json:"samples"`
-	Distribution   map[string]int `json:"distribution"`
-	TracesVsImpl   int            `json:"traces_validated_against_impl"`
-	Disagreements  []Disagreement `json:"disagreements"`
-	Failures       []Failure      `json:"failures"`
-	Assumptions    []string       `json:"assumptions"`
-	Exhaustive     bool           `json:"exhaustive"`
-	WallS          float64        `json:"wall_s"`
-	Notes          []string       `json:"notes"`
-	seen           map[string]bool
-	maxDisagree    int
+	Property      string         `json:"property"`
+	Evaluations   int            `json:"evaluations"`
+	Distinct      int            `json:"distinct_nontrivial"`
+	Rule          string         `json:"rule"`
+	Samples       []any          `json:"samples"`
+	Distribution  map[string]int `json:"distribution"`
+	TracesVsImpl  int            `json:"traces_validated_against_impl"`
+	Disagreements []Disagreement `json:"disagreements"`
+	Failures      []Failure      `json:"failures"`
+	Assumptions   []string       `json:"assumptions"`
+	Exhaustive    bool           `json:"exhaustive"`
+	WallS         float64        `json:"wall_s"`
+	Notes         []string       `json:"notes"`
+	seen          map[string]bool
+	maxDisagree   int
 }
 
-func newResult() *Result {
+func NewResult() *Result {
 	return &Result{Distribution: map[string]int{}, seen: map[string]bool{}, maxDisagree: 20}
 }
 
-func (r *Result) Count(key string) { r.Distribution[key]++ }
+func (r *Result) Count(key string)         { r.Distribution[key]++ }
 func (r *Result) CountN(key string, n int) { r.Distribution[key] += n }
 
 // Eval records one evaluated case; canon is its canonical input text; nontrivial says
@@ -121,7 +122,7 @@ func (r *Result) Fail(sig map[string]any, what string, input any) {
 
 type RNG struct{ s uint64 }
 
-func newRNG(seed uint64) *RNG { return &RNG{s: seed*0x9E3779B97F4A7C15 + 0x1234567} }
+func NewRNG(seed uint64) *RNG { return &RNG{s: seed*0x9E3779B97F4A7C15 + 0x1234567} }
 func (r *RNG) Next() uint64 {
 	r.s += 0x9E3779B97F4A7C15
 	z := r.s
@@ -135,9 +136,9 @@ func (r *RNG) Intn(n int) int {
 	}
 	return int(r.Next() % uint64(n))
 }
-func (r *RNG) Bool() bool        { return r.Next()&1 == 1 }
-func (r *RNG) Chance(p int) bool { return r.Intn(100) < p } // p percent
-func (r *RNG) Fork() *RNG        { return newRNG(r.Next()) }
+func (r *RNG) Bool() bool         { return r.Next()&1 == 1 }
+func (r *RNG) Chance(p int) bool  { return r.Intn(100) < p } // p percent
+func (r *RNG) Fork() *RNG         { return NewRNG(r.Next()) }
 func Pick[T any](r *RNG, l []T) T { return l[r.Intn(len(l))] }
 func Shuffle[T any](r *RNG, l []T) {
 	for i := len(l) - 1; i > 0; i-- {
@@ -156,8 +157,9 @@ type Nadrv struct {
 	mu  sync.Mutex
 }
 
-func (c *Ctx) StartNadrv(args ...string) *Nadrv {
-	cmd := exec.Command(c.Nadrv, args...)
+// StartNadrv starts the Lean driver executable nadrv-<name> (lean/.lake/build/bin).
+func (c *Ctx) StartNadrv(name string, args ...string) *Nadrv {
+	cmd := exec.Command(filepath.Join(c.Nadrv, "nadrv-"+name), args...)
 	in, _ := cmd.StdinPipe()
 	outp, _ := cmd.StdoutPipe()
 	cmd.Stderr = os.Stderr
@@ -242,12 +244,12 @@ func WriteFiles(dir string, files map[string]string) {
 	}
 }
 
-func jsonStr(v any) string {
+func JSONStr(v any) string {
 	b, _ := json.Marshal(v)
 	return string(b)
 }
 
-func readReplay(path string, v any) error {
+func ReadReplay(path string, v any) error {
 	data, err := os.ReadFile(path)
 	if err != nil {
 		return err
